@@ -27,6 +27,7 @@ fn main() {
     let mut tally = Tally::default();
     match engine.as_str() {
         "vrun" => vrun(&profile, seed, start, count, &out, verbose, &mut tally),
+        "vstream" => vstream(&profile, seed, start, count, verbose, &mut tally),
         other => {
             eprintln!("unknown engine {other}");
             std::process::exit(2);
@@ -99,5 +100,59 @@ fn vrun(profile: &str, seed: u64, start: u64, count: u64, out: &str, verbose: bo
         tally.sample("run", 3, || {
             json!({"case_index": idx, "case": case.describe(), "stream": vh::evrec::render(&run.evs), "schedule": run.qpoints.iter().map(|q| q.decision.clone()).collect::<Vec<_>>()})
         });
+    }
+}
+
+fn vstream(profile: &str, seed: u64, start: u64, count: u64, verbose: bool, tally: &mut Tally) {
+    use vh::{oracles_stream as os, recw, rng::Rng, synth};
+    let gen_prof = spec::Profile::by_name("general");
+    for idx in start..start + count {
+        let before = tally.violations.len();
+        let mut rng = Rng::new(seed.wrapping_mul(31).wrapping_add(idx));
+        // every 4th case replays a real stream recorded from runner::Basic
+        let real = idx % 4 == 3;
+        let real_items = || {
+            let case = spec::generate(&gen_prof, seed ^ 0xABCD, idx);
+            exec::run_case(&case).items
+        };
+        match profile {
+            "c11" => {
+                let s = if real {
+                    synth::from_items(&real_items())
+                } else {
+                    synth::generate(seed, idx, synth::SynthCfg::default(), idx % 5 != 0, &gen_prof)
+                };
+                os::c11(&s, tally, idx);
+            }
+            "c12" => {
+                let items = if real {
+                    recw::normalize(&real_items())
+                } else {
+                    let cfg = synth::SynthCfg { not_found: idx % 3 == 0, ..synth::SynthCfg::default() };
+                    synth::generate(seed, idx, cfg, false, &gen_prof).items
+                };
+                os::c12(&items, tally, idx, if real { "real run, normalized" } else { "synthetic" });
+            }
+            "c13" => {
+                let mut items = if real {
+                    synth::from_items(&real_items()).items
+                } else {
+                    synth::generate(seed, idx, synth::SynthCfg::default(), idx % 2 == 0, &gen_prof).items
+                };
+                if idx % 7 == 0 {
+                    rng.shuffle(&mut items); // these wrappers are stateless per event
+                }
+                os::c13(&items, tally, idx, &mut rng);
+            }
+            other => {
+                eprintln!("unknown vstream profile {other}");
+                std::process::exit(2);
+            }
+        }
+        if verbose {
+            for v in &tally.violations[before..] {
+                eprintln!("case {idx}: {} {} {}", v.property, v.signature, v.detail);
+            }
+        }
     }
 }
